@@ -110,6 +110,7 @@ Proof.
   - rewrite Tt0. exact Tt.
   - rewrite Tt0. exact Tt.
   - destruct (dcb s d); reflexivity.
+  - destruct (dcb s d); reflexivity.
 Qed.
 
 Lemma RI_reach s : reachable_from step init s -> RI s.
